@@ -2,6 +2,7 @@ package main
 
 import (
 	"bufio"
+	"encoding/json"
 	"fmt"
 	"os"
 	"path/filepath"
@@ -495,7 +496,46 @@ func clip(xs []string, n int) string {
 	return strings.Join(xs, ",")
 }
 
+// repStep: repeated use of the emitter in one process (`rep <json array of queries>`): every query is parsed, emitted TWICE in a
+// row and round-tripped, in order — state kept between calls (a pooled buffer that is not reset, a half-written buffer after a
+// failed emission) shows as a second emission that differs from the first or as a text that does not read back.
+func (r *c07Runner) repStep(raw string) string {
+	var qs []string
+	if err := json.Unmarshal([]byte(strings.TrimSpace(strings.TrimPrefix(strings.TrimSpace(raw), "rep"))), &qs); err != nil {
+		return "bad-op"
+	}
+	r.stats.Inc("repeated_use_sequences")
+	for i, q := range qs {
+		m, err, p := c07ParseSafe(q)
+		if p != "" {
+			return fmt.Sprintf("rep=panic:%d:%s", i, strings.ReplaceAll(p, " ", "_"))
+		}
+		if err != nil || m == nil {
+			continue
+		}
+		t1, e1 := c07FormatSafe(m)
+		t2, e2 := c07FormatSafe(m)
+		if (e1 == nil) != (e2 == nil) || t1 != t2 {
+			return fmt.Sprintf("rep=differ:%d:emitted-twice-differently:len1=%d:len2=%d", i, len(t1), len(t2))
+		}
+		if e1 != nil {
+			continue // a failed emission: the next query of the sequence is emitted right after it
+		}
+		m2, err2, p2 := c07ParseSafe(t1)
+		if p2 != "" || err2 != nil || m2 == nil {
+			return fmt.Sprintf("rep=differ:%d:emitted-text-does-not-parse:len=%d:head=%s", i, len(t1), strings.ReplaceAll(jsonQuote(t1[:min(60, len(t1))]), " ", "␠"))
+		}
+		if ToSexp(m2) != ToSexp(m) {
+			return fmt.Sprintf("rep=differ:%d:roundtrip-model-differs:len=%d", i, len(t1))
+		}
+	}
+	return fmt.Sprintf("rep=ok n=%d", len(qs))
+}
+
 func (r *c07Runner) Step(t []string, raw string) string {
+	if len(t) >= 2 && t[0] == "rep" {
+		return r.repStep(raw)
+	}
 	if len(t) < 2 || t[0] != "q" {
 		return "bad-op"
 	}
@@ -583,6 +623,10 @@ func (r *c07Runner) Step(t []string, raw string) string {
 	} else {
 		r.stats.Inc("rejected")
 	}
+	ints := "-"
+	if acc == 1 {
+		ints = intLiteralCheck(strings.TrimSpace(q), model)
+	}
 	tree := "-"
 	lexErrs, parseErrs := 0, 0
 	if strings.TrimSpace(q) != "" {
@@ -602,8 +646,8 @@ func (r *c07Runner) Step(t []string, raw string) string {
 			}
 		}
 	}
-	return fmt.Sprintf("acc=%d nil=%d syn=%d other=%d raw=%d lexerr=%d unsup=[%s] fmt=%s rt=%s tok=%s lost=[%s] gained=[%s] ranges=%s model=%s tree=%s",
-		acc, isNil, syn, other, lexErrs+parseErrs, lexErrs, strings.Join(unsup, ","), strings.ReplaceAll(fmtText, " ", "␠"), rt, tok, clip(lost, 8), clip(gained, 8), ranges,
+	return fmt.Sprintf("acc=%d nil=%d syn=%d other=%d raw=%d lexerr=%d ints=%s unsup=[%s] fmt=%s rt=%s tok=%s lost=[%s] gained=[%s] ranges=%s model=%s tree=%s",
+		acc, isNil, syn, other, lexErrs+parseErrs, lexErrs, ints, strings.Join(unsup, ","), strings.ReplaceAll(fmtText, " ", "␠"), rt, tok, clip(lost, 8), clip(gained, 8), ranges,
 		f64Re.ReplaceAllString(strings.ReplaceAll(modelSx, "\n", " "), "(f64 ?)"), tree)
 }
 
@@ -1137,6 +1181,40 @@ func (c07Suite) Gen(rng *Rng, tier string, w *bufio.Writer, stats *Stats) {
 	for _, s := range numericCases(rng, npos) {
 		emit("num", s)
 	}
+	// (f) repeated use: texts beyond 64 KiB (id lists, long strings, many clauses) followed by ordinary ones; a failing emission followed
+	// by an ordinary one; the same query several times — all within one Step (same goroutine)
+	ids := func(k int) string {
+		var b strings.Builder
+		for i := 0; i < k; i++ {
+			if i > 0 {
+				b.WriteString(", ")
+			}
+			fmt.Fprintf(&b, "%d", 100000+i)
+		}
+		return b.String()
+	}
+	small := []string{"MATCH (n) RETURN n", "MATCH (n) WHERE n.a = 1 RETURN n.b", "RETURN 1"}
+	bigs := []string{"MATCH (n) WHERE id(n) IN [" + ids(9000) + "] RETURN n", "MATCH (n) WHERE id(n) IN [" + ids(20000) + "] RETURN n",
+		"RETURN '" + strings.Repeat("x", 70000) + "'", "MATCH (n) WHERE n.name IN ['" + strings.Repeat("ab", 40000) + "'] RETURN n",
+		"MATCH (n) WHERE id(n) IN [" + ids(5000) + "] RETURN n"}
+	nrep := 0
+	emitRep := func(qs ...string) {
+		n++
+		nrep++
+		b, _ := json.Marshal(qs)
+		fmt.Fprintf(w, "# case %d rep\nrep %s\n", n, b)
+		stats.Inc("rep")
+	}
+	for _, b := range bigs {
+		for _, s := range small {
+			emitRep(b, s)
+			emitRep(s, b, s, s)
+		}
+		emitRep(b, b, small[0])
+	}
+	emitRep("MATCH (n) SET count(*).a = 1", "MATCH (n) RETURN n")           // a failing emission, then an ordinary one
+	emitRep("MATCH (n) REMOVE count(*).a", bigs[0], "MATCH (n) RETURN n", "MATCH (n) SET count(*).a = 1", "RETURN 1")
+	emitRep(small[0], small[0], small[0], small[1], small[0])
 	// (d) empty maps / lists / strings in every expression position; (e) dangling sigils and operators without operands
 	for _, s := range slotCases(rng, emptyLits, exprPositions, 0) {
 		emit("empty", s)
@@ -1203,7 +1281,7 @@ func (c07Suite) Gen(rng *Rng, tier string, w *bufio.Writer, stats *Stats) {
 	}
 	ngen := 1500
 	if thorough {
-		ngen = 15000
+		ngen = 12000
 	}
 	for k := 0; k < ngen; k++ {
 		c := &c07Gen{g: g, rng: rng, rareW: 0, fuel: 40 + rng.Intn(260)}
